@@ -99,11 +99,37 @@ Pow(a, n, w) == IF n = 0 THEN w = <<>>
 (*        k-th powers, k in [lo,hi], iff it splits into m non-empty pieces  *)
 (*        with m <= hi and (lo <= m or the body is nullable).  With no      *)
 (*        upper bound all m >= lo are equivalent and are capped at lo.      *)
-RECURSIVE RInit(_), RStep(_, _, _), RFinal(_, _)
+(*  Dead states are canonicalised (Norm) so that the residual automaton   *)
+(*  stays small: Dead(t,s) is a syntactic sufficient condition for "no      *)
+(*  final state is reachable from s"; Canon(t) is one fixed dead state.     *)
+RECURSIVE RInit(_), RStep(_, _, _), RFinal(_, _), Dead(_, _), Canon(_)
+Canon(t) ==
+  CASE t.k = "none" -> 0
+    [] t.k = "eps"  -> 1
+    [] t.k = "rng"  -> 2
+    [] t.k = "str"  -> -1
+    [] t.k = "cat2" -> <<Canon(t.a), {}>>
+    [] t.k \in {"alt", "and"} -> [i \in 1..Len(t.xs) |-> Canon(t.xs[i])]
+    [] t.k \in {"not", "quot"} -> Canon(t.a)
+    [] t.k = "loop" -> <<{}, {}>>
+Dead(t, s) ==
+  CASE t.k = "none" -> TRUE
+    [] t.k = "eps"  -> s = 1
+    [] t.k = "rng"  -> s = 2
+    [] t.k = "str"  -> s = -1
+    [] t.k = "cat2" -> s[2] = {} /\ Dead(t.a, s[1])
+    [] t.k = "alt"  -> \A i \in 1..Len(t.xs) : Dead(t.xs[i], s[i])
+    [] t.k = "and"  -> \E i \in 1..Len(t.xs) : Dead(t.xs[i], s[i])
+    [] t.k = "not"  -> FALSE
+    [] t.k = "loop" -> s[1] = {} /\ s[2] = {}
+    [] t.k = "quot" -> Dead(t.a, s)
+Norm(t, s) == IF Dead(t, s) THEN Canon(t) ELSE s
+Live(t, S) == {x \in S : ~Dead(t, x)}
+
 RInit(t) ==
   CASE t.k \in {"none", "eps", "rng", "str"} -> 0
-    [] t.k = "cat2" -> LET ia == RInit(t.a) IN <<ia, IF RFinal(t.a, ia) THEN {RInit(t.b)} ELSE {}>>
-    [] t.k \in {"alt", "and"} -> [i \in 1..Len(t.xs) |-> RInit(t.xs[i])]
+    [] t.k = "cat2" -> LET ia == RInit(t.a) IN Norm(t, <<ia, IF RFinal(t.a, ia) THEN Live(t.b, {RInit(t.b)}) ELSE {}>>)
+    [] t.k \in {"alt", "and"} -> Norm(t, [i \in 1..Len(t.xs) |-> RInit(t.xs[i])])
     [] t.k = "not"  -> RInit(t.a)
     [] t.k = "loop" -> <<{0}, {}>>
     [] t.k = "quot" -> RStep(t.a, RInit(t.a), t.c)
@@ -115,12 +141,13 @@ RStep(t, s, c) ==
     [] t.k = "str"  -> IF s >= 0 /\ s < Len(t.w) /\ t.w[s + 1] = c THEN s + 1 ELSE -1
     [] t.k = "cat2" -> LET sa == RStep(t.a, s[1], c)
                            B  == {RStep(t.b, x, c) : x \in s[2]}
-                       IN <<sa, B \cup (IF RFinal(t.a, sa) THEN {RInit(t.b)} ELSE {})>>
-    [] t.k \in {"alt", "and"} -> [i \in 1..Len(t.xs) |-> RStep(t.xs[i], s[i], c)]
+                       IN Norm(t, <<sa, Live(t.b, B \cup (IF RFinal(t.a, sa) THEN {RInit(t.b)} ELSE {}))>>)
+    [] t.k \in {"alt", "and"} -> Norm(t, [i \in 1..Len(t.xs) |-> RStep(t.xs[i], s[i], c)])
     [] t.k = "not"  -> RStep(t.a, s, c)
     [] t.k = "loop" -> LET starters == {m \in s[1] : t.hi < 0 \/ m < t.hi}
-                           P  == {<<p[1], RStep(t.a, p[2], c)>> : p \in s[2]}
+                           P0 == {<<p[1], RStep(t.a, p[2], c)>> : p \in s[2]}
                                  \cup {<<m, RStep(t.a, RInit(t.a), c)>> : m \in starters}
+                           P  == {p \in P0 : ~Dead(t.a, p[2])}
                            Bd == {LoopCap(t, p[1] + 1) : p \in {x \in P : RFinal(t.a, x[2])}}
                        IN <<Bd, P>>
     [] t.k = "quot" -> RStep(t.a, s, c)
